@@ -135,6 +135,18 @@ pub struct Stats {
     pub shapes: BTreeSet<(u32, u64)>,
 }
 
+thread_local! {
+    static KEY2: std::cell::RefCell<BTreeMap<(&'static str, &'static str), &'static str>> = const { std::cell::RefCell::new(BTreeMap::new()) };
+}
+
+/// "<collection>.<counter>" as a static string (each combination is created once).
+pub fn key2(a: &'static str, b: &'static str) -> &'static str {
+    KEY2.with(|m| {
+        let mut m = m.borrow_mut();
+        *m.entry((a, b)).or_insert_with(|| Box::leak(format!("{}.{}", a, b).into_boxed_str()))
+    })
+}
+
 impl Stats {
     #[inline]
     pub fn bump(&mut self, k: &'static str) {
